@@ -10,6 +10,8 @@ BASE = P.case(state="vec2", pg="scalar", cons=[P.con("bc0")], obj=["mayer_tf", "
 ALPHABET = [
     ["subject_to", P.con("x_le")],
     ["subject_to", P.con("u_between")],
+    ["subject_to", P.con("x_le", grid="integrator_roots")],
+    ["subject_to", P.con("xt_le", grid="integrator", include_first=False)],
     ["clear_constraints"],
     ["add_objective", "sum"],
     ["method", "MS2"],
@@ -92,6 +94,6 @@ def run_case(case):
 
 def describe(tier):
     return dict(
-        rule="(base 2: free horizon, 11-operation alphabet with time-expression guesses, guesses of T, methods with other grids, query, solve) and every operation sequence of length <= d over a 18-operation alphabet (2 subject_to, clear_constraints, add_objective, 3 methods, 2 solver option sets, set_T, set_t0, set_der with another right-hand side, 2 set_value, set_initial, query, solve, reading the latest solution object again) applied to a live Ocp (no implementation-side state merging), followed by the observation `solve` under a solver spy; oracle: the NLP (canonical rows, objective, start point, parameter vector) and solver settings seen by the solver equal those of a fresh Ocp declared from the final specification; a second solve sees the same; public declared state unchanged by queries/solves; distinct = digest of the observation",
+        rule="(base 2: free horizon, 11-operation alphabet with time-expression guesses, guesses of T, methods with other grids, query, solve) and every operation sequence of length <= d over a 20-operation alphabet (4 subject_to incl. the integrator and collocation-point grids, clear_constraints, add_objective, 3 methods, 2 solver option sets, set_T, set_t0, set_der with another right-hand side, 2 set_value, set_initial, query, solve, reading the latest solution object again) applied to a live Ocp (no implementation-side state merging), followed by the observation `solve` under a solver spy; oracle: the NLP (canonical rows, objective, start point, parameter vector) and solver settings seen by the solver equal those of a fresh Ocp declared from the final specification; a second solve sees the same; public declared state unchanged by queries/solves; distinct = digest of the observation",
         bound="depth %d%s" % ((4, " + restricted depth 5") if tier == "thorough" else (3, "")),
         assumptions=["solver spy at casadi.Opti.solve/solve_limited/solver is 'what the solver receives'", "observation with ipopt max_iter=0 (returns the start point)", "rows compared at 2 generic points and the start point"])
